@@ -36,6 +36,10 @@ class Indenter(PostLex, ABC):
 
         yield token
 
+        if '\n' not in token:
+            # A "newline" without a newline ends the text (a trailing comment): no new line, no indentation to measure
+            return
+
         indent_str = token.rsplit('\n', 1)[1] # Tabs and spaces
         indent = indent_str.count(' ') + indent_str.count('\t') * self.tab_len
 
